@@ -144,6 +144,7 @@ class Built:
             ds = factory(f, defaults=dict(zip(pnames, nodes)), **kw)
         else:
             ds = factory(**kw).where(**dict(zip(pnames, nodes)))(f)
+        self.ds[name] = ds   # visible to its own overloads (an overload may be computed from the dataset it overloads)
         for alias, impl in d.get("overloads", []):
             self.add_overload(ds, alias, impl)
         return ds
